@@ -535,9 +535,12 @@ var db3Defs = map[string]string{
 	"pkg_a/msg/Simple": "int32 a\nstring s",
 	"pkg_a/msg/Nested": "Simple one\npkg_b/Other[] many\nfloat64 x\n",
 	"pkg_b/msg/Other":  "# comment\nbool flag\npkg_a/Simple inner\n",
+	// a homonym: the bare name Simple means pkg_b/Simple inside pkg_b and pkg_a/Simple inside pkg_a
+	"pkg_b/msg/Simple": "bool other\n",
+	"pkg_b/msg/Holder": "Simple mine\npkg_a/Simple theirs\n",
 }
 
-var db3TopicTypes = []string{"pkg_a/msg/Simple", "pkg_a/msg/Nested", "pkg_b/msg/Other", "pkg_a/srv/S_Event"}
+var db3TopicTypes = []string{"pkg_a/msg/Simple", "pkg_a/msg/Nested", "pkg_b/msg/Other", "pkg_b/msg/Holder", "pkg_a/srv/S_Event"}
 
 // db3ExpectedSchema applies the concatenation rule of the converter's documentation.
 func db3ExpectedSchema(typ string) string {
@@ -830,7 +833,7 @@ func convertGuard(tag string, b []byte) iso.Outcome {
 
 // C18: ROS bag and ROS 2 db3 conversion keeps every message, in order.
 func C18(r *chk.Run) {
-	r.Rule("(a) every generated bag: connection id sets from {0,1,65535}, shared and distinct (type, md5) pairs incl. the same type name with different md5, two connections on one topic, <=3 messages of size {0,5[,>1 MiB]} at times {0,(1,1),(2^32-1,999999999)}, every chunk partition x {none, lz4} x connection records repeated or not, and unchunked, x 3 MCAP writer configurations, plus the same contents written by go-rosbag's own Writer (chunking by size {every record, 100 B, 64 KiB} x {none, lz4}); plus length sweeps (record header through 1 KiB and 2 KiB, message data / message definition through 1 MiB and 2 MiB, unchunked and in a chunk: the converter's buffer sizes); the output is decoded by the reference decoder and compared with the bag; (b) every generated SQLite database: 1..3 topics over 3 message types (nested, shared sub-types) and one non-message type, with/without the QoS column, <=3 messages incl. equal timestamps and topics without messages; (c) corruptions of a valid bag: every truncation position, and every byte position outside the header padding x widths 1/2/4 x hostile values, plus bad magic; all conversions run in isolated workers (process exit, fatal errors and stalls are observed); distinct = cases run")
+	r.Rule("(a) every generated bag: connection id sets from {0,1,65535}, shared and distinct (type, md5) pairs incl. the same type name with different md5, two connections on one topic, <=3 messages of size {0,5[,>1 MiB]} at times {0,(1,1),(2^32-1,999999999)}, every chunk partition x {none, lz4} x connection records repeated or not, and unchunked, x 3 MCAP writer configurations, plus the same contents written by go-rosbag's own Writer (chunking by size {every record, 100 B, 64 KiB} x {none, lz4}); plus length sweeps (record header through 1 KiB and 2 KiB, message data / message definition through 1 MiB and 2 MiB, unchunked and in a chunk: the converter's buffer sizes); the output is decoded by the reference decoder and compared with the bag; (b) every generated SQLite database: 1..3 topics over 4 message types (nested, shared sub-types, the same bare type name in two packages) and one non-message type, with/without the QoS column, <=3 messages incl. equal timestamps and topics without messages; (c) corruptions of a valid bag: every truncation position, and every byte position outside the header padding x widths 1/2/4 x hostile values, plus bad magic; all conversions run in isolated workers (process exit, fatal errors and stalls are observed); distinct = cases run")
 	r.Assume("the harness' bag encoder follows the ROS bag v2.0 specification (every bag it emits is read back by go-rosbag's linear and index-based readers first; a disagreement aborts the run as a harness error); ament index trees and SQLite files are generated by the harness (github.com/mattn/go-sqlite3, in-memory)")
 	big := r.Thorough()
 	thorough := r.Thorough()
